@@ -310,6 +310,16 @@ def instrument(Q, tr):
     wrap(an, 'release_individual', relind)
 
 
+class EventCapSim(ciw.Simulation):
+    """Plain simulation with an event cap (warm-up runs)."""
+    _n = 0
+
+    def event_and_return_nextnode(self, nd):
+        self._n += 1
+        if self._n > 3000: raise EventCap()
+        return super().event_and_return_nextnode(nd)
+
+
 class MonSim(ciw.Simulation):
     """Simulation subclass: records (clock, node, type, scheduled date) before every event and a full
     configuration snapshot after it. Tie handling: 'native' keeps ciw's own random resolution; 'first' /
